@@ -34,7 +34,7 @@ def run(ctx):
     ctx.harness(binary, ["-plans", pdir, "-out", ctx.path("steps.ndjson"), "-stress", ctx.path("stress.ndjson"),
                          "-seed", ctx.seed, "-rand", ctx.q(100, 2000), "-nstress", ctx.q(6, 100), "-nbatch", ctx.q(0, 0),
                          "-nlong", ctx.q(6, 60), "-npingpong", ctx.q(300, 5000), "-nraces", ctx.q(60, 1500),
-                         "-nsim", ctx.q(400, 20000)],
+                         "-nsim", ctx.q(400, 20000), "-nretain", ctx.q(6, 30)],
                 traces=[ctx.path("steps.ndjson"), ctx.path("stress.ndjson")])
     steps = ctx.load_traces(ctx.path("steps.ndjson"))
     stress = ctx.load_traces(ctx.path("stress.ndjson"))
